@@ -1,6 +1,7 @@
 package main
 
 import (
+	"fmt"
 	"encoding/json"
 	"log/slog"
 	"math"
@@ -140,6 +141,22 @@ func c08(args []string) {
 		ev.FloatErr = strings.Join(errs, ",")
 	}
 
+	// history: the values of a message that was decoded earlier and is still held (a display that lags, a queue of recent
+	// messages) are asked for again after the NEXT message has been decoded: they must be what they were
+	var prevEval func() string
+	var prevFirst string
+	recheck := func(fam, con string) {
+		if prevEval == nil {
+			return
+		}
+		ev := c08Event{Fam: fam, Con: con, Sig: 1, Floats: []string{}}
+		ev.FloatOK = true
+		if now := prevEval(); now != prevFirst {
+			ev.Panic = "the values of an earlier message changed after a later message was decoded"
+			w.Emit(ev)
+		}
+		prevEval = nil
+	}
 	fracs := []int64{0, 1, 511, 512, 1023}
 	whole := 0
 	nmsg := 50
@@ -207,47 +224,67 @@ func c08(args []string) {
 					if err != nil {
 						panic("driver: MSM4 decode failed: " + err.Error())
 					}
-					for _, rowc := range m.Signals {
-						for i := range rowc {
-							cell := &rowc[i]
-							ev := c08Event{Fam: fam, Con: con, Sig: int(cell.ID), Whole: int(cell.Satellite.RangeWholeMillis), Frac: int(cell.Satellite.RangeFractionalMillis),
-								Fine: cell.RangeDelta, Phase: cell.PhaseRangeDelta}
-							ev.Panic = tr.Recover(func() {
-								aR, aP := cell.GetAggregateRange(), cell.GetAggregatePhaseRange()
-								ev.AggRange, ev.AggPhase = split(aR, k.RangeRadix), split(aP, k.PhaseRadix)
-								text := cell.String()
-								ev.NInvalid = strings.Count(text, "invalid")
-								if w.N%500 == 0 {
-									ev.Text = text
+					eval := func(emit bool) string {
+						var sum strings.Builder
+						for _, rowc := range m.Signals {
+							for i := range rowc {
+								cell := &rowc[i]
+								ev := c08Event{Fam: fam, Con: con, Sig: int(cell.ID), Whole: int(cell.Satellite.RangeWholeMillis), Frac: int(cell.Satellite.RangeFractionalMillis),
+									Fine: cell.RangeDelta, Phase: cell.PhaseRangeDelta}
+								ev.Panic = tr.Recover(func() {
+									aR, aP := cell.GetAggregateRange(), cell.GetAggregatePhaseRange()
+									ev.AggRange, ev.AggPhase = split(aR, k.RangeRadix), split(aP, k.PhaseRadix)
+									text := cell.String()
+									ev.NInvalid = strings.Count(text, "invalid")
+									if emit && w.N%500 == 0 {
+										ev.Text = text
+									}
+									check(&ev, ci, cell.Wavelength, cell.RangeInMetres(), cell.PhaseRange(), 0, 0, aR, aP, 0, false)
+								})
+								fmt.Fprint(&sum, ev.Whole, ev.Frac, ev.AggRange, ev.AggPhase, ev.Floats, ev.NInvalid, ev.Panic, ";")
+								if emit {
+									w.Emit(ev)
 								}
-								check(&ev, ci, cell.Wavelength, cell.RangeInMetres(), cell.PhaseRange(), 0, 0, aR, aP, 0, false)
-							})
-							w.Emit(ev)
+							}
 						}
+						return sum.String()
 					}
+					recheck(fam, con)
+					first := eval(true)
+					prevEval, prevFirst = func() string { return eval(false) }, first
 				} else {
 					m, err := msm7.GetMessage(frame, lv)
 					if err != nil {
 						panic("driver: MSM7 decode failed: " + err.Error())
 					}
-					for _, rowc := range m.Signals {
-						for i := range rowc {
-							cell := &rowc[i]
-							ev := c08Event{Fam: fam, Con: con, Sig: int(cell.ID), Whole: int(cell.Satellite.RangeWholeMillis), Frac: int(cell.Satellite.RangeFractionalMillis),
-								Fine: cell.RangeDelta, Phase: cell.PhaseRangeDelta, RoughRate: cell.Satellite.PhaseRangeRate, FineRate: cell.PhaseRangeRateDelta}
-							ev.Panic = tr.Recover(func() {
-								aR, aP, aV := cell.GetAggregateRange(), cell.GetAggregatePhaseRange(), cell.GetAggregatePhaseRangeRate()
-								ev.AggRange, ev.AggPhase, ev.AggRate = split(aR, k.RangeRadix), split(aP, k.PhaseRadix), aV
-								text := cell.String()
-								ev.NInvalid = strings.Count(text, "invalid")
-								if w.N%500 == 0 {
-									ev.Text = text
+					eval := func(emit bool) string {
+						var sum strings.Builder
+						for _, rowc := range m.Signals {
+							for i := range rowc {
+								cell := &rowc[i]
+								ev := c08Event{Fam: fam, Con: con, Sig: int(cell.ID), Whole: int(cell.Satellite.RangeWholeMillis), Frac: int(cell.Satellite.RangeFractionalMillis),
+									Fine: cell.RangeDelta, Phase: cell.PhaseRangeDelta, RoughRate: cell.Satellite.PhaseRangeRate, FineRate: cell.PhaseRangeRateDelta}
+								ev.Panic = tr.Recover(func() {
+									aR, aP, aV := cell.GetAggregateRange(), cell.GetAggregatePhaseRange(), cell.GetAggregatePhaseRangeRate()
+									ev.AggRange, ev.AggPhase, ev.AggRate = split(aR, k.RangeRadix), split(aP, k.PhaseRadix), aV
+									text := cell.String()
+									ev.NInvalid = strings.Count(text, "invalid")
+									if emit && w.N%500 == 0 {
+										ev.Text = text
+									}
+									check(&ev, ci, cell.Wavelength, cell.RangeInMetres(), cell.PhaseRange(), cell.PhaseRangeRate(), cell.PhaseRangeRateDoppler(), aR, aP, aV, true)
+								})
+								fmt.Fprint(&sum, ev.Whole, ev.Frac, ev.AggRange, ev.AggPhase, ev.AggRate, ev.Floats, ev.NInvalid, ev.Panic, ";")
+								if emit {
+									w.Emit(ev)
 								}
-								check(&ev, ci, cell.Wavelength, cell.RangeInMetres(), cell.PhaseRange(), cell.PhaseRangeRate(), cell.PhaseRangeRateDoppler(), aR, aP, aV, true)
-							})
-							w.Emit(ev)
+							}
 						}
+						return sum.String()
 					}
+					recheck(fam, con)
+					first := eval(true)
+					prevEval, prevFirst = func() string { return eval(false) }, first
 				}
 			}
 		}
